@@ -252,6 +252,15 @@ def observer_state(srv):
     return sorted(out)
 
 
+def worker_fs_calls(fn):
+    """every call on connection.path_io inside a transfer worker, normalised, in source order"""
+    out = []
+    for n in ast.walk(fn):
+        if isinstance(n, ast.Call) and isinstance(n.func, ast.Attribute) and norm(n.func.value, {"connection": "conn"}) == "conn.path_io":
+            out.append((n.lineno, n.col_offset, norm(n, {"connection": "conn"})))
+    return [t for _, _, t in sorted(out)]
+
+
 def connection_offset_init(fn):
     """the restart_offset= / transfer_offset= keyword arguments of the Connection(...) call in the dispatcher"""
     out = []
@@ -436,6 +445,7 @@ def generate(src_dir):
         ("xf_reset_stmt", slist(reset)),
         ("xf_offset_init", slist(connection_offset_init(disp))),
         ("xf_observer_state", slist(observer_state(srv))),
+        ("xf_worker_fs_calls", slist(worker_fs_calls(nested_fn(stor, "stor_worker")) + ["--"] + worker_fs_calls(nested_fn(retr, "retr_worker")))),
         ("xf_backend_wiring", slist(wiring)),
         ("xf_nursery_call", slist(stmts(find_method(nursery, "__call__").body))),
         ("xf_iter_anext", slist(anext)),
